@@ -175,7 +175,7 @@ def run(ctx: Ctx, sub=None, dynamic: bool = True) -> None:
         if not (isinstance(cls, type) and attrs.has(cls)):
             fail("not-attrs-class", cls_name, f"{cls!r}")
             return
-        sub.container = key[1] if key[0] == "struct" else None
+        sub.container = key[1] if key[0] == "struct" else (key if key[0] == "and" else None)
         fields = {f.name: f for f in attrs.fields(cls)}
         expected_attrs = {}
         for p in props:
@@ -253,11 +253,14 @@ def run(ctx: Ctx, sub=None, dynamic: bool = True) -> None:
     for locus, ty in sub.objects.type_at.items():
         if ty["kind"] == "and" or (ty["kind"] == "literal" and ty["value"]["properties"]):
             key = ("and" if ty["kind"] == "and" else "lit", locus)
-            containers: List[Optional[str]] = [None]
+            containers: List[Any] = [None]
             if key[0] == "lit" and locus.startswith("struct:"):
                 sname, pname = locus.split("|")[0][len("struct:"):].split(".", 1)
                 containers += [s for s in m.structs if s != sname and any(
                     p["name"] == pname and p["_declared_in"] == sname for p in m.flat_props(s))]
+                # ... and in every `and` class that takes the property over
+                containers += [("and", l2) for l2, t2 in sub.objects.type_at.items() if t2["kind"] == "and" and any(
+                    p["name"] == pname and p.get("_declared_in") == sname for p in sub.objects.props(("and", l2)))]
             for cont in containers:  # the literal's class in the declaring structure and in every inheritor
                 evaluations += 1
                 sub.container = cont
